@@ -381,6 +381,15 @@ class _rewrite_captured_vars(ast.NodeTransformer):
             or hasattr(rewritten_call.func.value, "_fields")
         ):
             rewritten_call.func = old_func
+            # A method of a captured value (`prefix.upper()`): the value is still captured
+            if isinstance(old_func, ast.Attribute):
+                obj = self.visit(old_func.value)
+                if isinstance(obj, ast.Constant) and isinstance(
+                    obj.value, (str, bytes, int, float, complex)
+                ):
+                    rewritten_call.func = ast.Attribute(
+                        value=obj, attr=old_func.attr, ctx=ast.Load()
+                    )
 
         return rewritten_call
 
